@@ -3,4 +3,4 @@
 RT=$(ls -d ~/.cargo/registry/src/*/rapid_time-0.1.2)
 s=$1; shift
 /verif/build/vx-target/release/vx /verif/slices/$s.vs --crate-dir rapid_time=$RT --out /verif/build/$s.rs --map /verif/build/$s.map.json || exit 2
-verus /verif/build/$s.rs --multiple-errors 20 "$@" 2>&1 | grep -v "autoderive" 
+verus /verif/build/$s.rs --multiple-errors 20 --rlimit 60 "$@" 2>&1 | grep -v "autoderive" 
